@@ -47,6 +47,7 @@ func run(r *mon.Report, tier string, idx int, rng *rand.Rand) {
 	cfg.Pool.PMinValues = 0.15
 	cfg.Pool.PTaint = 0.4
 	cfg.Pool.PStartupTaint = 0.4
+	cfg.SelectiveDaemons = rng.Intn(3) == 0
 	s := common.Build(rng, cfg)
 	e := s.Env
 	e.Provider.Policy = []string{"cheapest", "dearest", "largest", "smallest", "random"}[rng.Intn(5)]
@@ -352,14 +353,14 @@ func checkExisting(r *mon.Report, s *common.Scenario, res provscheduling.Results
 				others = append(others, bp)
 				for _, or := range bp.OwnerReferences {
 					if or.Kind == "DaemonSet" {
-						boundDaemons[or.Name] = true
+						boundDaemons[string(or.UID)] = true
 					}
 				}
 			}
 		}
 		var pendingDaemons []*corev1.Pod
 		for i, d := range s.DaemonPodTemplates() {
-			if boundDaemons[s.Daemons[i].Name] {
+			if boundDaemons[string(s.Daemons[i].UID)] {
 				continue
 			}
 			if oracle.DaemonAdmissible(d, cn) {
